@@ -10,6 +10,7 @@
 -/
 import Rl.HistFile
 import Rl.Lemmas.HistFile
+import Rl.Lemmas.HistFileGap
 open Rl
 
 /-- The escaping is injective, and an escaped entry contains neither a line feed nor a carriage
@@ -219,4 +220,85 @@ example :
     let es := ["abc\r".toList, "\r".toList, "#V2".toList, "\\n".toList, "x\ny\\z".toList, " é".toList]
     (loadFrom (fun c => c == ' ') (atomsOf (fileOf es)) (FileHist.new 10 false true)).h.mem.entries = es ∧
     fileOf ["a\rb\n\\".toList] = "#V2\na\\rb\\n\\\\\n".toList := by
+  decide
+
+/-! ### Gap filling (package S): the byte-indexed reader inverts the writer, normalisation of foreign
+    files, append chains, whole save / load sessions -/
+
+/-- The reader's unescape loop — the byte-indexed one of `load_from`, with its `find`, slices and
+    index — inverts the writer's escaping on EVERY entry: any mixture of backslashes, line feeds,
+    carriage returns, text that looks like an escape (`\n`, `\r`, `\\`), multi-byte characters. -/
+theorem C10_unescape_escape (e : Text) : unescape (escEntry e) = some e := by
+  rw [unescape_eq, unescChars_esc]; rfl
+
+/-- Load-then-save is a normalisation, and it is idempotent — for ARBITRARY file bytes `f` (foreign,
+    legacy, torn, invalid UTF-8), whatever the load's outcome: the entries `es` obtained from `f`,
+    once saved, load back as exactly `es` with status ok; hence saving again produces the same
+    bytes: `save (load (save (load f))) = save (load f)`. -/
+theorem C10_normalise_idempotent (ws : Char → Bool) (max : Nat) (isp idp : Bool) (f : List Atom) :
+    let es := (loadFrom ws f (FileHist.new max isp idp)).h.mem.entries
+    (loadFrom ws (atomsOf (fileOf es)) (FileHist.new max isp idp)).status = .ok ∧
+    (loadFrom ws (atomsOf (fileOf es)) (FileHist.new max isp idp)).h.mem.entries = es ∧
+    fileOf (loadFrom ws (atomsOf (fileOf es)) (FileHist.new max isp idp)).h.mem.entries = fileOf es := by
+  intro es
+  have hs : Storable ws max isp idp es := by
+    obtain ⟨added, ha⟩ := loadFrom_only_adds ws f (FileHist.new max isp idp)
+    show Storable ws max isp idp (loadFrom ws f (FileHist.new max isp idp)).h.mem.entries
+    rw [ha]
+    exact storable_reachable ws max isp idp added
+  have hr := C10_roundtrip ws max isp idp es hs
+  exact ⟨hr.1, hr.2.1, by rw [hr.2.1]⟩
+
+/-- Append after save = save of the concatenation, on the file BYTES, for any number of append
+    batches: the file `save` writes for `es`, extended by the lines `append` writes for the batches
+    `bs` one after the other, is byte for byte the file `save` writes for `es ++ bs.flatten`.  No
+    hypothesis on the entries. -/
+theorem C10_append_chain_bytes (es : List Text) (bs : List (List Text)) :
+    appendedFile es bs = atomsOf (fileOf (es ++ bs.flatten)) :=
+  appendedFile_eq es bs
+
+/-- … and therefore such a file loads as the saved entries followed by all appended ones, in
+    order, byte for byte (within the limit: the combined list is storable). -/
+theorem C10_append_chain_loads (ws : Char → Bool) (max : Nat) (isp idp : Bool) (es : List Text)
+    (bs : List (List Text)) (hs : Storable ws max isp idp (es ++ bs.flatten)) :
+    (loadFrom ws (appendedFile es bs) (FileHist.new max isp idp)).status = .ok ∧
+    (loadFrom ws (appendedFile es bs) (FileHist.new max isp idp)).h.mem.entries = es ++ bs.flatten := by
+  rw [appendedFile_eq]
+  exact ⟨(C10_roundtrip ws max isp idp _ hs).1, (C10_roundtrip ws max isp idp _ hs).2.1⟩
+
+/-- The fast path of `FileHistory::append` keeps the file in that shape: if the file is a saved
+    list followed by appended batches, then after the call it is the same with the new entries as
+    one more batch — i.e. byte for byte what `save` would write for all of them together. -/
+theorem C10_append_fast_chain (ws : Char → Bool) (w : World) (es : List Text) (bs : List (List Text))
+    (hf : w.file = some (appendedFile es bs))
+    (hne : w.sess.fh.mem.entries ≠ []) (hn0 : w.sess.fh.newEntries ≠ 0)
+    (hnm : w.sess.fh.newEntries ≠ w.sess.fh.mem.maxLen) (hc : w.canJustAppend = true) :
+    (w.append ws).1.file = some (appendedFile es (bs ++ [newOnes w.sess.fh])) ∧
+    (w.append ws).1.file = some (atomsOf (fileOf (es ++ bs.flatten ++ newOnes w.sess.fh))) := by
+  have h1 := (C10_append_fast ws w _ hf hne hn0 hnm hc).2.1
+  have h2 : appendedFile es bs ++ atomsOf (linesOf (newOnes w.sess.fh))
+      = appendedFile es (bs ++ [newOnes w.sess.fh]) := by
+    simp [appendedFile]
+  rw [h1, h2]
+  refine ⟨rfl, ?_⟩
+  rw [appendedFile_eq]
+  simp
+
+/-- A whole session: from any world whose history has something new (any file, stale or not), the
+    operation sequence save · load-into-a-fresh-history · dump reports ok, ok and exactly the
+    entries of the saving history, in order, byte for byte — whatever they contain. -/
+theorem C10_session_roundtrip (ws : Char → Bool) (w : World)
+    (hne : w.sess.fh.mem.entries ≠ []) (hn0 : w.sess.fh.newEntries ≠ 0)
+    (hs : Storable ws w.sess.fh.mem.maxLen w.sess.fh.mem.ignoreSpace w.sess.fh.mem.ignoreDups
+            w.sess.fh.mem.entries) :
+    (World.run ws w [.save, .freshLoad, .dump]).2
+      = [.status .ok, .status .ok, .all w.sess.fh.mem.entries] := by
+  have hr := C10_roundtrip ws _ _ _ _ hs
+  simp [World.run, World.step, World.save, World.load, hne, hn0, freshHist, hr.1, hr.2.1, hr.2.2.1]
+
+example :
+    let w : World := { sess := { fh := addAll (fun c => c == ' ') (FileHist.new 5 true true)
+                                   ["a\r".toList, "\\n".toList, "#V2".toList], pathSize := none },
+                       file := some [Atom.bad 255], stale := true }
+    w.sess.fh.mem.entries ≠ [] ∧ w.sess.fh.newEntries ≠ 0 ∧ w.sess.fh.mem.entries.length = 3 := by
   decide
